@@ -641,5 +641,183 @@ theorem fix_depth_eq_spec {own : List α} {ls ls' : List (Link α F)} (hm : ∀ 
     have := h2 d (hF.inv.sound c d hd)
     rw [hd]; congr 1; omega
 
+/-! ### values -/
+
+variable {V : Type}
+
+theorem allSome_map_mono {β : Type} (fs : List α) (g g' : α → Option β)
+    (h : ∀ f ∈ fs, ∀ v, g f = some v → g' f = some v) {vs : List β}
+    (hs : allSome (fs.map g) = some vs) : allSome (fs.map g') = some vs := by
+  induction fs generalizing vs with
+  | nil => simpa [allSome] using hs
+  | cons a r ih =>
+    simp only [List.map_cons] at hs ⊢
+    cases ha : g a with
+    | none => rw [ha] at hs; simp [allSome] at hs
+    | some v =>
+      rw [ha] at hs
+      rw [h a (by simp) v ha]
+      simp only [allSome] at hs ⊢
+      cases hr : allSome (r.map g) with
+      | none => rw [hr] at hs; cases hs
+      | some ws =>
+        rw [hr] at hs
+        rw [ih (fun f hf => h f (by simp [hf])) hr]
+        exact hs
+
+theorem allSome_map_exists {β : Type} (fs : List α) (g : α → Option β)
+    (h : ∀ f ∈ fs, ∃ v, g f = some v) : ∃ vs, allSome (fs.map g) = some vs := by
+  induction fs with
+  | nil => exact ⟨[], rfl⟩
+  | cons a r ih =>
+    obtain ⟨v, hv⟩ := h a (by simp)
+    obtain ⟨vs, hvs⟩ := ih (fun f hf => h f (by simp [hf]))
+    exact ⟨v :: vs, by simp [allSome, hv, hvs]⟩
+
+theorem allSome_map_get {β : Type} (fs : List α) (g : α → Option β) {vs : List β}
+    (hs : allSome (fs.map g) = some vs) (dflt : β) :
+    (∀ f ∈ fs, g f = some ((g f).getD dflt)) ∧ vs = fs.map (fun f => (g f).getD dflt) := by
+  induction fs generalizing vs with
+  | nil => simp [allSome] at hs; simp [hs]
+  | cons a r ih =>
+    simp only [List.map_cons] at hs
+    cases ha : g a with
+    | none => rw [ha] at hs; simp [allSome] at hs
+    | some v =>
+      rw [ha] at hs
+      simp only [allSome] at hs
+      cases hr : allSome (r.map g) with
+      | none => rw [hr] at hs; cases hs
+      | some ws =>
+        rw [hr] at hs
+        injection hs with hs
+        obtain ⟨h1, h2⟩ := ih hr
+        refine ⟨?_, ?_⟩
+        · intro f hf
+          rcases List.mem_cons.mp hf with rfl | hf'
+          · simp [ha]
+          · exact h1 f hf'
+        · simp [← hs, ha, h2]
+
+theorem evalC_mono (own : List α) (ownVal : α → V) (app : F → List V → V)
+    (via : List (α × Link α F)) (n : Nat) :
+    ∀ c v, evalC own ownVal app via n c = some v → evalC own ownVal app via (n + 1) c = some v := by
+  induction n with
+  | zero => intro c v h; simp [evalC] at h
+  | succ n ih =>
+    intro c v h
+    rw [evalC] at h ⊢
+    split
+    · rename_i hc; simpa [hc] using h
+    · rename_i hc
+      simp only [hc, if_false] at h
+      split
+      · rename_i hv; simp [hv] at h
+      · rename_i l hv
+        simp only [hv] at h
+        split at h
+        · rename_i vs hvs
+          rw [allSome_map_mono l.froms _ _ (fun f _ v hfv => ih f v hfv) hvs]
+          exact h
+        · cases h
+
+theorem evalC_mono_add (own : List α) (ownVal : α → V) (app : F → List V → V)
+    (via : List (α × Link α F)) (n k : Nat) (c : α) (v : V)
+    (h : evalC own ownVal app via n c = some v) : evalC own ownVal app via (n + k) c = some v := by
+  induction k with
+  | zero => exact h
+  | succ k ih => exact evalC_mono own ownVal app via (n + k) c v ih
+
+theorem evalC_mono_le (own : List α) (ownVal : α → V) (app : F → List V → V)
+    (via : List (α × Link α F)) {n n' : Nat} (hle : n ≤ n') (c : α) (v : V)
+    (h : evalC own ownVal app via n c = some v) : evalC own ownVal app via n' c = some v := by
+  have := evalC_mono_add own ownVal app via n (n' - n) c v h
+  rwa [Nat.add_sub_cancel' hle] at this
+
+/-- In a fixpoint state every reached cid evaluates, with fuel `depth + 1`. -/
+theorem fix_eval {own : List α} {ls : List (Link α F)} {s : DState α F} (hF : Fix own ls s)
+    (ownVal : α → V) (app : F → List V → V) :
+    ∀ d c, get s.depth c = some d → ∃ v, evalC own ownVal app s.via (d + 1) c = some v := by
+  intro d
+  induction d using Nat.strongRecOn with
+  | _ d ih =>
+    intro c hd
+    by_cases hc : c ∈ own
+    · exact ⟨ownVal c, by simp [evalC, hc]⟩
+    · obtain ⟨l, m, hv, hl, hto, hm, hmd⟩ := fix_via hF hd hc
+      have hfs : ∀ f ∈ l.froms, ∃ v, evalC own ownVal app s.via d f = some v := by
+        intro f hf
+        obtain ⟨df, hdf, hle⟩ := maxDepth?_some hm f hf
+        obtain ⟨v, hv⟩ := ih df (by omega) f hdf
+        exact ⟨v, evalC_mono_le own ownVal app s.via (by omega) f v hv⟩
+      obtain ⟨vs, hvs⟩ := allSome_map_exists l.froms _ hfs
+      exact ⟨app l.fn vs, by simp [evalC, hc, hv, hvs]⟩
+
+/-- The local equation satisfied by the table `evalC (N+1)` in a fixpoint state. -/
+theorem fix_out_local {own : List α} {ls : List (Link α F)} {s : DState α F} (hF : Fix own ls s)
+    (ownVal : α → V) (app : F → List V → V) (N : Nat)
+    (hN : ∀ c d, get s.depth c = some d → d ≤ N)
+    {c : α} {d : Nat} (hd : get s.depth c = some d) (hc : c ∉ own) :
+    ∃ l m vs, l ∈ ls ∧ l.to = c ∧ maxDepth? s.depth l.froms = some m ∧ m + 1 = d ∧
+      allSome (l.froms.map (evalC own ownVal app s.via (N + 1))) = some vs ∧
+      evalC own ownVal app s.via (N + 1) c = some (app l.fn vs) := by
+  obtain ⟨l, m, hv, hl, hto, hm, hmd⟩ := fix_via hF hd hc
+  have hdN := hN c d hd
+  have hfs : ∀ f ∈ l.froms, ∃ v, evalC own ownVal app s.via N f = some v := by
+    intro f hf
+    obtain ⟨df, hdf, hle⟩ := maxDepth?_some hm f hf
+    obtain ⟨v, hv⟩ := fix_eval hF ownVal app df f hdf
+    exact ⟨v, evalC_mono_le own ownVal app s.via (by omega) f v hv⟩
+  obtain ⟨vs, hvs⟩ := allSome_map_exists l.froms _ hfs
+  have hvs' : allSome (l.froms.map (evalC own ownVal app s.via (N + 1))) = some vs :=
+    allSome_map_mono l.froms _ _ (fun f _ v hfv => evalC_mono own ownVal app s.via N f v hfv) hvs
+  exact ⟨l, m, vs, hl, hto, hm, hmd, hvs', by simp [evalC, hc, hv, hvs]⟩
+
+theorem fix_out_none {own : List α} {ls : List (Link α F)} {s : DState α F} (hF : Fix own ls s)
+    (ownVal : α → V) (app : F → List V → V) (N : Nat) {c : α} (hd : get s.depth c = none) :
+    evalC own ownVal app s.via N c = none := by
+  cases N with
+  | zero => rfl
+  | succ N =>
+    have hc : c ∉ own := by
+      intro ho; rw [hF.inv.ownZero c ho] at hd; cases hd
+    simp [evalC, hc, hF.inv.viaNone c hd]
+
+/-- The oracle predicate holds for what `discover_links` installs, for every scan list with the
+same members as `ls`. -/
+theorem discover_specOkAt [DecidableEq V] (own : List α) (ls ls' : List (Link α F))
+    (hm : ∀ l, l ∈ ls ↔ l ∈ ls') (ownVal : α → V) (app : F → List V → V) (c : α) :
+    specOkAt own ls ownVal app
+      (installedVal own ownVal app ls' (discoverLinks own ls')) c = true := by
+  have hF := discover_fix own ls'
+  have hN : ∀ c d, get (discoverLinks own ls').depth c = some d → d ≤ ls'.length + 1 :=
+    fun c d h => Nat.le_succ_of_le (discover_depth_le_length own ls' c d h)
+  unfold specOkAt
+  by_cases hc : c ∈ own
+  · simp [hc, installedVal, evalC]
+  · simp only [hc, if_false]
+    rw [← fix_depth_eq_spec hm hF c]
+    cases hd : get (discoverLinks own ls').depth c with
+    | none => simp [installedVal, fix_out_none hF ownVal app _ hd]
+    | some d =>
+      obtain ⟨l, m, vs, hl, hto, hmx, hmd, hvs, hev⟩ := fix_out_local hF ownVal app _ hN hd hc
+      subst hmd
+      simp only [Bool.and_eq_true, Option.isSome_iff_exists, List.any_eq_true]
+      refine ⟨⟨_, hev⟩, l, (hm l).mpr hl, ?_⟩
+      refine ⟨⟨by simp [hto], ?_⟩, ?_⟩
+      · simp only [List.all_eq_true, decide_eq_true_eq]
+        intro f hf
+        obtain ⟨df, hdf, hle⟩ := maxDepth?_some hmx f hf
+        exact (mem_layer _ _ _ _).mpr
+          (derivLe_mono (derivLe_congr (fun l => (hm l).symm) (hF.inv.sound f df hdf)) _ hle)
+      · show (installedVal own ownVal app ls' (discoverLinks own ls') c ==
+          match allSome (l.froms.map (installedVal own ownVal app ls' (discoverLinks own ls'))) with
+          | some vs => some (app l.fn vs)
+          | none => none) = true
+        have : (l.froms.map (installedVal own ownVal app ls' (discoverLinks own ls'))) =
+            l.froms.map (evalC own ownVal app (discoverLinks own ls').via (ls'.length + 1 + 1)) := rfl
+        rw [this, hvs]
+        simp [installedVal, hev]
+
 end
 end GlueVerif.Lemmas.C03
